@@ -27,6 +27,18 @@ func c18APIRD(r *rand.Rand) *api.RouteDistinguisher {
 	}
 }
 
+// c18APIBSID: no SID, an MPLS label value in 4 octets (as docs/sources/lib-srpolicy.md builds it) or 16 octets.
+func c18APIBSID(r *rand.Rand) []byte {
+	switch r.IntN(3) {
+	case 0:
+		return nil
+	case 1:
+		l := c18Label(r)
+		return []byte{byte(l >> 24), byte(l >> 16), byte(l >> 8), byte(l)}
+	}
+	return c18Bytes(r, 16)
+}
+
 func c18APISegFlags(r *rand.Rand) *api.SegmentFlags {
 	if c18Chance(r, 3) {
 		return nil
@@ -80,7 +92,7 @@ func c18HandBuiltCase(c *c18Ctx) {
 		var b *api.TunnelEncapSubTLVSRBindingSID
 		class := "srbsid"
 		if c18Bool(r) {
-			b = &api.TunnelEncapSubTLVSRBindingSID{Bsid: &api.TunnelEncapSubTLVSRBindingSID_SrBindingSid{SrBindingSid: &api.SRBindingSID{SFlag: c18Bool(r), IFlag: c18Bool(r), Sid: c18Bytes(r, c18Pick(r, 0, 4, 16))}}}
+			b = &api.TunnelEncapSubTLVSRBindingSID{Bsid: &api.TunnelEncapSubTLVSRBindingSID_SrBindingSid{SrBindingSid: &api.SRBindingSID{SFlag: c18Bool(r), IFlag: c18Bool(r), Sid: c18APIBSID(r)}}}
 		} else {
 			class = "srv6bsid"
 			b = &api.TunnelEncapSubTLVSRBindingSID{Bsid: &api.TunnelEncapSubTLVSRBindingSID_Srv6BindingSid{Srv6BindingSid: &api.SRv6BindingSID{SFlag: c18Bool(r), IFlag: c18Bool(r), BFlag: c18Bool(r), Sid: c18Bytes(r, 16), EndpointBehaviorStructure: c18APIEBS(r)}}}
